@@ -38,17 +38,17 @@ func keyLess(a, b [3]int) bool {
 
 // feature slots and their values (value 0 = absent)
 var c07Features = [][]string{
-	{"", "@@"},                            // 0 exception
-	{"", "important"},                     // 1
-	{"", "domain=a.com", "domain=~a.com"}, // 2 (the negated form restricts but does not make the rule specific)
-	{"", "script", "script,image", "~script", "~script,~image"}, // 3 content types
-	{"", "third-party", "~third-party"},                         // 4
-	{"", "match-case"},                                          // 5
-	{"", "dnstype=A", "dnstype=~A"},                             // 6
-	{"", "ctag=pc", "ctag=~pc"},                                 // 7
-	{"", "client=10.0.0.1", "client=~10.0.0.1"},                 // 8
-	{"", "denyallow=x.com"},                                     // 9
-	{"", "redirect=noopjs"},                                     // 10: rejected by the parser today; structural axioms apply as soon as it parses
+	{"", "@@"},        // 0 exception
+	{"", "important"}, // 1
+	{"", "domain=a.com", "domain=~a.com", "domain=a.*"},                          // 2 (the negated form restricts but does not make the rule specific; a wildcard-TLD domain does)
+	{"", "script", "script,image", "~script", "~script,~image", "script,~image"}, // 3 content types
+	{"", "third-party", "~third-party"},                                          // 4
+	{"", "match-case"},                                                           // 5
+	{"", "dnstype=A", "dnstype=~A"},                                              // 6
+	{"", "ctag=pc", "ctag=~pc"},                                                  // 7
+	{"", "client=10.0.0.1", "client=~10.0.0.1"},                                  // 8
+	{"", "denyallow=x.com"},                                                      // 9
+	{"", "redirect=noopjs"},                                                      // 10: rejected by the parser today; structural axioms apply as soon as it parses
 }
 
 func c07Build(feat []int) *c07Rule {
@@ -78,7 +78,7 @@ func c07Build(feat []int) *c07Rule {
 	case exc:
 		cr.class = 1
 	}
-	if feat[2] == 1 {
+	if feat[2] == 1 || feat[2] == 3 {
 		cr.spec = 1
 	}
 	return cr
@@ -245,8 +245,10 @@ func init() {
 			for slot := 1; slot < len(c07Features); slot++ {
 				var cands []int
 				switch {
-				case slot == 3 && (r.feat[3] == 1 || r.feat[3] == 3):
-					cands = []int{r.feat[3] + 1} // script -> script,image ; ~script -> ~script,~image
+				case slot == 3 && r.feat[3] == 1:
+					cands = []int{2, 5} // script -> script,image and script,~image
+				case slot == 3 && r.feat[3] == 3:
+					cands = []int{4} // ~script -> ~script,~image
 				case slot == 3 && r.feat[3] == 0:
 					cands = []int{1, 3}
 				case r.feat[slot] == 0:
